@@ -400,6 +400,35 @@ pub fn gen_world(seed: u64, t: u64, steps: usize, profile: &str, out: &mut impl 
     NEXT_CLONE_TOK.with(|c| c.set(1_000_000_000 + t * 100_000));
     let mut rng = Rng::seeded(seed, t);
     let e0 = lru_mem::entry_size(&VKey::probe(0), &VVal { tok: 0, tag: 0, heap: 0 });
+    if profile == "clog" {
+        // systematic sweep of tombstone-clogged tables: a table of capacity c (every hashbrown capacity up to 112) is filled
+        // exactly with consecutive keys (identity or multiplicative hasher: long occupied runs, so removals leave DELETED
+        // markers and growth_left stays 0), then k = 0..=c entries are removed (ascending, descending or from the middle),
+        // then new keys are inserted / try_inserted and capacity is asked for. Index t enumerates (c, k, order, hasher).
+        let caps = [3usize, 7, 14, 28, 56, 112];
+        let c = caps[(t % 6) as usize];
+        let k = ((t / 6) % (c as u64 + 1)) as usize;
+        let order = (t / (6 * 113)) % 3;
+        let hk = if (t / (6 * 113 * 3)) % 2 == 0 { 0u8 } else { 3u8 };
+        let universe: u32 = 240;
+        let mut w = World { slots: vec![None, None, None], universe, cfg: (usize::MAX, c, hk), log: Vec::new() };
+        new_cache(&mut w, 0, usize::MAX, c, hk, out);
+        let mut tok: u64 = t * 1_000_000;
+        let mut alive = true;
+        for i in 0..c { tok += 2; alive &= do_step(&mut w, 0, &Op::Insert(i as u32, tok - 1, 0, tok, tok, 0), out); if !alive { return (w, alive); } }
+        for j in 0..k {
+            let id = match order { 0 => j, 1 => c - 1 - j, _ => (c / 4 + j) % c } as u32;
+            alive &= do_step(&mut w, 0, &Op::Remove(id), out); if !alive { return (w, alive); }
+        }
+        let tail: Vec<Op> = vec![
+            { tok += 2; Op::Insert(c as u32 + 3, tok - 1, 0, tok, tok, 0) }, Op::Capacity,
+            { tok += 2; Op::TryInsert(c as u32 + 9, tok - 1, 0, tok, tok, 0) },
+            { tok += 2; Op::Insert(c as u32 + 17, tok - 1, 0, tok, tok, 0) },
+            Op::Reserve(1), { tok += 2; Op::Insert(c as u32 + 33, tok - 1, 0, tok, tok, 0) }, Op::ShrinkToFit,
+            { tok += 2; Op::Insert(c as u32 + 41, tok - 1, 0, tok, tok, 0) }, Op::Iter(0, "FB".into())];
+        for op in tail.iter().take(steps.max(1)) { alive &= do_step(&mut w, 0, op, out); if !alive { break; } }
+        return (w, alive);
+    }
     let churn = profile == "churn";
     let hk = if churn { rng.pick(&[0u8, 0, 3, 4, 2]) } else { rng.below(5) as u8 };
     let big = profile == "big" || (profile == "mix" && t % 7 == 3);
